@@ -125,7 +125,7 @@ def tlc(module, cfg, workdir, name, workers=8, env_extra=None, timeout=3600, sim
     if deque:
         java.append("-Dtlc2.tool.queue.IStateQueue=StateDeque")
     cmd = ["timeout", str(timeout)] + java + ["-cp", TLA_JARS, "tlc2.TLC", "-workers", str(workers), "-metadir", meta,
-                                              "-cleanup", "-noGenerateSpecTE", "-config", cfg]
+                                              "-cleanup", "-noGenerateSpecTE", "-checkpoint", "0", "-config", cfg]
     if simulate:
         cmd += ["-simulate", simulate]
     if extra:
